@@ -243,9 +243,10 @@ fn call_server(server: &Arc<TMutex<OmahaServer>>, req: http::Request<hyper::Body
         let r = catch(|| sock.exchange(parts.method.as_str(), &pq, &headers, &bytes, frames));
         return match r {
             Ok(Ok(x)) => Ok(x),
+            // an I/O error without a recorded server panic is the sandbox's (ports, descriptors), not the server's
             Ok(Err(e)) => match take_last_panic() {
                 Some((loc, msg)) => Err(format!("PANIC at {}: {msg}", short_loc(&loc))),
-                None => Err(e),
+                None => Err(format!("SOCKET-IO {e}")),
             },
             Err((loc, msg)) => Err(format!("PANIC at {}: {msg}", short_loc(&loc))),
         };
@@ -306,7 +307,9 @@ fn case_direct(t: &mut Tape, ctx: &CaseCtx) -> CaseResult {
     let bad = |sig: &str, msg: String| Err(Failure::new(sig, msg, case.clone()));
     let server = Arc::new(TMutex::new(server_of(&c)));
     // one case in eight talks to the server the way a pooled HTTP client does: a real socket, one kept-alive connection
-    let mut sock = if over_socket { SocketConn::start(&server) } else { None };
+    // (at most 20 000 socket cases per process: every one costs a listener and a connection of the sandbox)
+    static SOCKET_CASES: std::sync::atomic::AtomicUsize = std::sync::atomic::AtomicUsize::new(0);
+    let mut sock = if over_socket && SOCKET_CASES.fetch_add(1, std::sync::atomic::Ordering::Relaxed) < 20_000 { SocketConn::start(&server) } else { None };
     let config = config_of(&c);
     let params = RequestParams { source: if c.on_demand { InstallSource::OnDemand } else { InstallSource::ScheduledTask }, use_configured_proxies: false, disable_updates: c.disable_updates, offer_update_if_same_version: false };
     let handler = c.client_keys.as_ref().map(|k| StandardCupv2Handler::new(&cupref::public_keys(k[0], &k[1..])));
@@ -384,6 +387,7 @@ fn case_direct(t: &mut Tape, ctx: &CaseCtx) -> CaseResult {
             let req = http::Request::post("/set_responses_by_appid").body(hyper::Body::from(body.to_string())).unwrap();
             match call_server(&server, req, frames, sock.as_mut()) {
                 Ok((200, _, _)) => {}
+                Err(e) if e.starts_with("SOCKET-IO") => return Ok(CaseReport { key: hash_of(&c.url.text), classes: vec!["socket_io_error"], ..Default::default() }),
                 other => return bad("reconfiguration-failed", format!("/set_responses_by_appid answered {other:?}")),
             }
         }
@@ -410,6 +414,7 @@ fn case_direct(t: &mut Tape, ctx: &CaseCtx) -> CaseResult {
                 let loc = e.split(':').nth(0).unwrap_or("").to_string() + ":" + e.split(':').nth(1).unwrap_or("");
                 return bad(&format!("server-{}", loc.replace("PANIC at ", "panic@")), format!("the mock server panicked on a client-built request to {pq:?}: {e}"));
             }
+            Err(e) if e.starts_with("SOCKET-IO") => return Ok(CaseReport { key: hash_of(&c.url.text), classes: vec!["socket_io_error"], ..Default::default() }),
             Err(e) => return bad("server-error", format!("the mock server failed on a client-built request to {pq:?}: {e}")),
         };
         if status != 200 {
